@@ -7,7 +7,15 @@ From Coq Require Import Strings.String Strings.Byte.
 From Coq Require Import List NArith.
 From Goit Require Import Bytes Sha1 Obj Tree Index BytesFacts ObjFacts IndexFacts.
 From Goit Require Import Sha1 Refs Tree Commit Reflog Config ConfigFacts ReflogFacts RegexFacts Regex GoRegex World Repo DecoderFacts.
+From Goit Require Import Bridge.
 Import ListNotations.
+
+(* T0 (tie to the source): every regexp literal of the current Go source denotes
+   the same language, with the same anchoring, as the pattern of the model — proved
+   by running the verified equivalence checker on SrcRegex.v, which is regenerated
+   from /repo on every run (see Bridge.v) *)
+Theorem C19_source_patterns_are_the_models : source_patterns_agree.
+Proof. exact source_patterns. Qed.
 
 (* T1: whatever bytes sit in an object file, GetObject returns an object only
    if those bytes hash to the id that was asked for — a truncated, bit-flipped
@@ -123,3 +131,4 @@ Print Assumptions C19_reflog_sound.
 Print Assumptions C19_reflog_position_beyond.
 Print Assumptions C19_config_sound.
 Print Assumptions C19_reading_commands_total_and_read_only.
+Print Assumptions C19_source_patterns_are_the_models.
